@@ -24,10 +24,20 @@ import (
 )
 
 const (
-	goBin    = "go1.26.8"
-	goRoot   = "/opt/veriftools/go1.26.8"
-	verifDir = "/verif"
+	goBin  = "go1.26.8"
+	goRoot = "/opt/veriftools/go1.26.8"
 )
+
+// verifDir is the directory run_check.sh lives in (it cds there before starting the
+// driver): /verif normally, a snapshot of it under `vp run`.
+var verifDir = func() string {
+	if d, err := os.Getwd(); err == nil {
+		if _, err := os.Stat(filepath.Join(d, "sim", "go.mod")); err == nil {
+			return d
+		}
+	}
+	return "/verif"
+}()
 
 type propSpec struct {
 	Engine      string
@@ -580,6 +590,31 @@ func replayOnce(bin, runDir string, baseEnv []string, rf harness.ReplayFile, tag
 	return s.Replayed, nil
 }
 
+// replayFailure is replayOnce that also returns the tape and labels the replay actually
+// drew (only available when an oracle failed).
+func replayFailure(bin, runDir string, baseEnv []string, rf harness.ReplayFile, tag string) (*harness.Failure, error) {
+	replayMu.Lock()
+	replaySeq++
+	id := replaySeq
+	replayMu.Unlock()
+	p := filepath.Join(runDir, fmt.Sprintf("replay-%s-%d.json", tag, id))
+	writeReplay(p, rf)
+	defer os.Remove(p)
+	out := filepath.Join(runDir, fmt.Sprintf("replay-%s-%d.out", tag, id))
+	defer os.Remove(out)
+	env := append([]string{}, baseEnv...)
+	env = append(env, "VSIM_REPLAY="+p, "GOMAXPROCS=2")
+	s, err := runWorker(bin, workerJob{prop: rf.Property, env: env, out: out, log: out + ".log", wall: 5 * time.Minute})
+	os.Remove(out + ".log")
+	if err != nil {
+		return nil, err
+	}
+	if len(s.Failures) > 0 {
+		return &s.Failures[0], nil
+	}
+	return nil, nil
+}
+
 func doReplay(bin, runDir string, baseEnv []string, prop, path string) int {
 	b, err := os.ReadFile(path)
 	if err != nil {
@@ -673,21 +708,33 @@ func detCheck(bin, runDir string, baseEnv []string, sums []*harness.Summary, n, 
 	return len(idxs), firstErr
 }
 
-// minimise shrinks the tape by delta debugging; every attempt is one fresh process;
-// attempts of one round run in parallel and the lowest-numbered success wins, so the
-// result does not depend on timing.
+// minimise shrinks the tape. Every attempt is one fresh process; the attempts of a round run
+// in parallel and the lowest-numbered success wins, so the result does not depend on timing.
+// The tape is cut along scheduler decisions (a "sched" draw and the draws that depend on
+// it), which keeps what remains meaningful: whole steps are dropped (shortest failing prefix,
+// then delta debugging over steps), then single draws are set to 0 (the benign choice),
+// then values are lowered. After every success the tape is replaced by what the replay
+// actually drew.
 func minimise(bin, runDir string, baseEnv []string, rf harness.ReplayFile, budget time.Duration) harness.ReplayFile {
 	deadline := time.Now().Add(budget)
 	attempts := 0
-	cur := append([]int(nil), rf.Tape...)
-	var last *harness.Result
-	try := func(cands [][]int) int {
-		if len(cands) == 0 || time.Now().After(deadline) {
-			return -1
+	trim := func(t []int) []int {
+		for len(t) > 0 && t[len(t)-1] == 0 {
+			t = t[:len(t)-1]
 		}
-		results := make([]*harness.Result, len(cands))
+		return t
+	}
+	cur := trim(append([]int(nil), rf.Tape...))
+	labels := rf.Labels
+	var last *harness.Failure
+	// try runs the candidates and adopts the first that still fails the same oracle.
+	try := func(cands [][]int) bool {
+		if len(cands) == 0 || time.Now().After(deadline) {
+			return false
+		}
+		results := make([]*harness.Failure, len(cands))
 		var wg sync.WaitGroup
-		sem := make(chan struct{}, 16)
+		sem := make(chan struct{}, 12)
 		for i := range cands {
 			wg.Add(1)
 			sem <- struct{}{}
@@ -697,134 +744,131 @@ func minimise(bin, runDir string, baseEnv []string, rf harness.ReplayFile, budge
 				r := rf
 				r.Tape = cands[i]
 				r.Labels = nil
-				res, err := replayOnce(bin, runDir, baseEnv, r, "min")
+				f, err := replayFailure(bin, runDir, baseEnv, r, "min")
 				if err == nil {
-					results[i] = res
+					results[i] = f
 				}
 			}(i)
 		}
 		wg.Wait()
 		attempts += len(cands)
-		for i, r := range results {
-			if r != nil && r.Oracle == rf.Oracle {
-				last = r
-				return i
-			}
-		}
-		return -1
-	}
-	trim := func(t []int) []int {
-		for len(t) > 0 && t[len(t)-1] == 0 {
-			t = t[:len(t)-1]
-		}
-		return t
-	}
-	cur = trim(cur)
-	// 1. shortest failing prefix (tail = zeros = benign)
-	for time.Now().Before(deadline) {
-		var cands [][]int
-		for _, frac := range []int{8, 4, 2} {
-			n := len(cur) - len(cur)/frac
-			if n < len(cur) && n >= 0 {
-				cands = append(cands, append([]int(nil), cur[:len(cur)/frac*(frac-1)/1]...))
-			}
-		}
-		cands = nil
-		for _, keep := range []int{len(cur) / 8, len(cur) / 4, len(cur) / 2, len(cur) * 3 / 4, len(cur) * 7 / 8, len(cur) - 1} {
-			if keep >= 0 && keep < len(cur) {
-				cands = append(cands, trim(append([]int(nil), cur[:keep]...)))
-			}
-		}
-		i := try(cands)
-		if i < 0 {
-			break
-		}
-		cur = cands[i]
-		if len(cur) == 0 {
-			break
-		}
-	}
-	// 2. delete chunks, 3. zero chunks, at decreasing granularity
-	for size := len(cur) / 2; size >= 1 && time.Now().Before(deadline); {
-		progress := false
-		for pos := 0; pos < len(cur) && time.Now().Before(deadline); {
-			var cands [][]int
-			var kinds []int
-			for p := pos; p < len(cur) && len(cands) < 32; p += size {
-				end := p + size
-				if end > len(cur) {
-					end = len(cur)
+		for _, f := range results {
+			if f != nil && f.Result.Oracle == rf.Oracle {
+				last = f
+				nt := trim(append([]int(nil), f.Tape...))
+				if len(nt) <= len(cur) {
+					cur = nt
+					labels = f.Labels
 				}
-				del := append(append([]int(nil), cur[:p]...), cur[end:]...)
-				cands = append(cands, trim(del))
-				kinds = append(kinds, p)
-				allZero := true
-				for _, v := range cur[p:end] {
-					if v != 0 {
-						allZero = false
-					}
-				}
-				if !allZero {
-					z := append([]int(nil), cur...)
-					for q := p; q < end; q++ {
-						z[q] = 0
-					}
-					cands = append(cands, trim(z))
-					kinds = append(kinds, p)
+				return true
+			}
+		}
+		return false
+	}
+	steps := func() []int { // start index of every scheduler step, plus len(cur)
+		var st []int
+		if len(labels) >= len(cur) {
+			for i := 0; i < len(cur); i++ {
+				if labels[i] == "sched" {
+					st = append(st, i)
 				}
 			}
-			i := try(cands)
-			if i >= 0 {
-				cur = cands[i]
-				progress = true
-				pos = kinds[i]
-				continue
-			}
-			pos += size * 16
 		}
-		if !progress || size == 1 {
-			if size == 1 && !progress {
+		if len(st) == 0 { // no labels: fixed-size pseudo steps
+			for i := 0; i < len(cur); i += 4 {
+				st = append(st, i)
+			}
+		}
+		return append(st, len(cur))
+	}
+	batch := func(all [][]int) bool {
+		for i := 0; i < len(all) && time.Now().Before(deadline); i += 12 {
+			j := i + 12
+			if j > len(all) {
+				j = len(all)
+			}
+			if try(all[i:j]) {
+				return true
+			}
+		}
+		return false
+	}
+	for round := 0; round < 6 && time.Now().Before(deadline); round++ {
+		before := len(cur)
+		// 1. shortest failing prefix, in whole steps
+		for time.Now().Before(deadline) {
+			st := steps()
+			n := len(st) - 1
+			if n <= 1 {
 				break
 			}
-			size /= 2
-		}
-		if size > len(cur)/2 && len(cur) > 1 {
-			size = len(cur) / 2
-		}
-		if size == 0 {
-			size = 1
-		}
-		if !progress && size == 1 {
-			// one more pass at size 1 happens through the loop; stop if nothing changes
-		}
-	}
-	// 4. reduce single values
-	for changed := true; changed && time.Now().Before(deadline); {
-		changed = false
-		for p := 0; p < len(cur) && time.Now().Before(deadline); p++ {
-			if cur[p] == 0 {
-				continue
-			}
 			var cands [][]int
-			for _, v := range []int{cur[p] / 2, cur[p] - 1} {
-				if v >= 0 && v < cur[p] {
-					c := append([]int(nil), cur...)
-					c[p] = v
-					cands = append(cands, c)
+			seen := map[int]bool{}
+			for _, k := range []int{0, n / 8, n / 4, n / 2, n * 3 / 4, n * 7 / 8, n - 2, n - 1} {
+				if k >= 0 && k < n && !seen[k] {
+					seen[k] = true
+					cands = append(cands, trim(append([]int(nil), cur[:st[k]]...)))
 				}
 			}
-			if i := try(cands); i >= 0 {
-				cur = trim(cands[i])
-				changed = true
+			if !try(cands) {
+				break
 			}
+		}
+		// 2. delta debugging over steps
+		for size := (len(steps()) - 1) / 2; size >= 1 && time.Now().Before(deadline); size /= 2 {
+			for again := true; again && time.Now().Before(deadline); {
+				again = false
+				st := steps()
+				var cands [][]int
+				for k := 0; k+size < len(st); k += size {
+					c := append(append([]int(nil), cur[:st[k]]...), cur[st[k+size]:]...)
+					cands = append(cands, trim(c))
+				}
+				if batch(cands) {
+					again = true
+				}
+			}
+		}
+		// 3. zero single draws that are not scheduler picks (workload, configuration, faults)
+		for again := true; again && time.Now().Before(deadline); {
+			again = false
+			var cands [][]int
+			for i := range cur {
+				if cur[i] != 0 && !(i < len(labels) && labels[i] == "sched") {
+					c := append([]int(nil), cur...)
+					c[i] = 0
+					cands = append(cands, trim(c))
+				}
+			}
+			if batch(cands) {
+				again = true
+			}
+		}
+		// 4. lower scheduler picks towards the first alternative
+		{
+			var cands [][]int
+			for i := range cur {
+				if cur[i] != 0 && i < len(labels) && labels[i] == "sched" {
+					c := append([]int(nil), cur...)
+					c[i] = 0
+					cands = append(cands, trim(c))
+				}
+			}
+			batch(cands)
+		}
+		if len(cur) >= before {
+			break
 		}
 	}
 	rf.Tape = cur
 	rf.Labels = nil
+	if len(labels) >= len(cur) {
+		rf.Labels = labels[:len(cur)]
+	}
 	rf.Minimised = true
 	if last != nil {
-		rf.Msg = last.Msg
-		rf.Trace = last.Trace
+		rf.Msg = last.Result.Msg
+		rf.Trace = last.Result.Trace
 	}
 	fmt.Printf("minimised with %d replay attempts\n", attempts)
 	// final confirmation in a fresh process
